@@ -113,7 +113,8 @@ pub fn pipeline(inp: &str, outp: &str) {
         for t in sc["tampers"].as_array().unwrap_or(&vec![]) {
             let kind = t.as_str().unwrap();
             let nparams = match kind {
-                "prog_hash" => 4, "flip_byte" => 16, "truncate" => 8, "input_change" | "output_top" => 3, "relabel_tag" | "invalid_tag" | "input_append" | "output_append" => 2,
+                "prog_hash" => 4, "flip_byte" => 16, "truncate" => 8, "input_change" => 16, "output_top" => 16, "output_deep" => 3, "ovf_addr" => 6,
+                "relabel_tag" | "invalid_tag" | "input_append" | "output_append" => 2,
                 _ => 1,
             };
             for p in 0..nparams {
@@ -127,12 +128,16 @@ pub fn pipeline(inp: &str, outp: &str) {
                     "kernel_add" => st.kernel.push(some_digest(p as u64)),
                     "kernel_remove" => { if st.kernel.is_empty() { applicable = false } else { st.kernel.pop(); } }
                     "kernel_replace" => { if st.kernel.is_empty() { applicable = false } else { let n = st.kernel.len(); st.kernel[n - 1] = some_digest(7); } }
-                    "input_change" => { if st.inputs.is_empty() { applicable = false } else { let i = (p * st.inputs.len() / 3).min(st.inputs.len() - 1); st.inputs[i] = st.inputs[i] + Felt::new(1); } }
+                    "input_change" => { if p >= st.inputs.len() { applicable = false } else { st.inputs[p] = st.inputs[p] + Felt::new(1); } } // every position (Pipeline!StmtSites)
                     "input_append" => st.inputs.push(Felt::new(p as u64)), // p = 0: an explicit zero (padding made explicit)
                     "input_remove" => { if st.inputs.is_empty() { applicable = false } else { st.inputs.pop(); } }
-                    "output_top" => { let i = [0usize, 7, 15][p]; st.out_stack[i] = (st.out_stack[i] + 1) % Felt::MODULUS; }
-                    "output_deep" => { if st.out_stack.len() <= 16 { applicable = false } else { let n = st.out_stack.len(); st.out_stack[n - 1] = (st.out_stack[n - 1] + 1) % Felt::MODULUS; } }
-                    "ovf_addr" => { if st.out_addrs.is_empty() { applicable = false } else { let n = st.out_addrs.len(); st.out_addrs[n / 2] = (st.out_addrs[n / 2] + 1) % Felt::MODULUS; } }
+                    "output_top" => { st.out_stack[p] = (st.out_stack[p] + 1) % Felt::MODULUS; }
+                    "output_deep" => { if st.out_stack.len() <= 16 { applicable = false } else { let n = st.out_stack.len(); let i = [16, (16 + n) / 2, n - 1][p]; st.out_stack[i] = (st.out_stack[i] + 1) % Felt::MODULUS; } }
+                    // overflow addresses: first, second, middle, last (+1), and the first / last replaced by a large value
+                    "ovf_addr" => { if st.out_addrs.is_empty() { applicable = false } else { let n = st.out_addrs.len(); let i1 = if n > 1 { 1 } else { 0 };
+                        match p { 0 => st.out_addrs[0] = (st.out_addrs[0] + 1) % Felt::MODULUS, 1 => st.out_addrs[i1] = (st.out_addrs[i1] + 1) % Felt::MODULUS,
+                                  2 => st.out_addrs[n / 2] = (st.out_addrs[n / 2] + 1) % Felt::MODULUS, 3 => st.out_addrs[n - 1] = (st.out_addrs[n - 1] + 1) % Felt::MODULUS,
+                                  4 => st.out_addrs[0] = 1u64 << 32, _ => st.out_addrs[n - 1] = if st.out_addrs[n - 1] == Felt::MODULUS - 1 { Felt::MODULUS - 2 } else { Felt::MODULUS - 1 } } } } // (rows present from the start carry the addresses p - 1, p - 2, ...)
                     "output_append" => { st.out_stack.push(p as u64); if st.out_stack.len() == 17 { st.out_addrs = vec![0, 1]; } else { st.out_addrs.push(2); } }
                     "output_truncate" => { if st.out_stack.len() <= 16 { applicable = false } else { st.out_stack.pop(); st.out_addrs.pop(); if st.out_stack.len() == 16 { st.out_addrs.clear(); } } }
                     "flip_byte" => { let i = 1 + (b.len() - 2) * (2 * p + 1) / 32; b[i] ^= 1 << (p % 8); }
